@@ -129,6 +129,11 @@ def run(ctx):
         arm_pcs = []
         for tk in T.events:
             arm_pcs.extend(sorted(a for a in d if "multiple" not in a) for d in ctx.pc_strs(f_arm, tk.blk))
+        # an arm generator that asks as_name itself stands under as_name's own condition
+        ask = "is_some(darling_core::codegen::field::Field::<'a>::as_name(self.0))=True"
+        if len(pcs) == 1:
+            own = [a.replace("self.", "self.0.", 1) for a in pcs[0]]
+            arm_pcs = [sorted(set([a for a in d if a != ask] + (own if ask in d else []))) for d in arm_pcs]
         arm_set = {tuple(x) for x in arm_pcs}
         ctx.ob("C01.S.addressable-agreement", f_name.key, "as_name vs MatchArm", pcs == [["self.flatten=False", "self.skip=False"]] and arm_set == {("self.0.flatten=False", "self.0.skip=False")},
                "as_name yields a name under %s; MatchArm emits under %s" % (pcs, sorted(arm_set)))
